@@ -35,6 +35,17 @@ func ledgerPlan(o LedgerGenOpts) func(p *PRNG, cfg Config, tier string) Plan {
 				}
 			}
 		}
+		// directed pattern (C07): a validating operator loses its stake, an epoch passes (its key leaves
+		// the stored set), then it replaces its key, goes back to the old key and replaces it again
+		if cfg.NVals >= 2 && len(plan.Blocks) >= 12 && p.Chance(1, 5) {
+			x := 1 + p.Intn(cfg.NVals-1)
+			b1 := 1 + p.Intn(3)
+			b2 := b1 + 2 + p.Intn(4)
+			plan.Blocks[b1].Ops = append(plan.Blocks[b1].Ops, Op{K: "und", A: x, B: 0, C: x, Amt: "all", N: 800001})
+			plan.Blocks[b1+1].DtNs = dogfoodEpochSecs(cfg)*1e9 + 1e9
+			d1 := 1 + p.Intn(ConsKeyPool-1)
+			plan.Blocks[b2].Ops = append(plan.Blocks[b2].Ops, Op{K: "setkey", A: x, D: d1}, Op{K: "setkey", A: x, D: 0}, Op{K: "setkey", A: x, D: 1 + (d1+p.Intn(ConsKeyPool-2))%(ConsKeyPool-1)})
+		}
 		nst := -1
 		for i, a := range cfg.Assets {
 			if a.NST {
